@@ -1,3 +1,5 @@
+//go:build verif
+
 // proj.go - projection of a sink's database image onto the persisted facts spec/synccrash/SyncCrash.tla talks
 // about: what start-up (core.NewBlockchain) and statesync.Module.Init read.
 package c02synccrash
